@@ -18,6 +18,9 @@ func Sign(priv *ecdsa.PrivateKey, data []byte) (r, s *big.Int, err error) {
 // signature of the data by an owner of the private key associated with the
 // provided public key.
 func Verify(pub *ecdsa.PublicKey, data []byte, r, s *big.Int) bool {
+	if pub == nil || pub.X == nil || pub.Y == nil || r == nil || s == nil {
+		return false
+	}
 	return ecdsa.Verify(pub, data, r, s)
 }
 
